@@ -148,6 +148,11 @@ def run(tier='quick'):
             getattr(chk, c[0])(*c[1], **c[2])
     chk.extra['representative_versions'] = ['%s %s' % (g, order[v]) for g, v in reps]
     rowrules.fetch_widths(prog, chk, R2, maps + tmaps)
+    R10 = chk.rule('R10', 'every write path of the 1.x performance blobs applies the decode-after-encode guard: a snapshot '
+                          'whose blob the decoder would reject (one beat-grid marker, unsorted markers) is refused instead '
+                          'of stored', floor=2)
+    from . import c03 as _c03
+    _c03._sibling_guard(prog, chk, R10)
     R9 = chk.rule('R9', 'update() and create_track rely on the transaction guard to undo a write that is rejected '
                         'part-way (so that a snapshot never shows a mixture): the guard begins, commits and rolls '
                         'back exactly when not committed', floor=4)
